@@ -387,8 +387,36 @@ def is_available(rep, idx):
     elif len(rets) == 1 and isinstance(rets[0].value, ast.Name):
         flag = rets[0].value.id                         # an availability flag: starts True, only ever cleared
         start, later = True, False
-    rep.check(flag is not None, "C18.4", site, "the verdict is `not <conflict flag>` (or an availability flag) and there is no early return",
-              f"returns: {[ast.unparse(r.value) for r in rets]}")
+    extra_unk = None
+    if flag is None and len(rets) > 1:
+        # one final verdict plus early returns: an early `return True` inside a loop answers before the remaining names were compared
+        # (named); an early exit before the search (a fast path decided by an index or a helper) or an early `return False` is a
+        # different algorithm whose completeness is not re-derived here
+        final = [r for r in rets if not any(isinstance(a, (ast.For, ast.While, ast.If)) for a in ancestors(r))]
+        early = [r for r in rets if r not in final]
+        if len(final) == 1 and early:
+            fv = final[0].value
+            if isinstance(fv, ast.UnaryOp) and isinstance(fv.op, ast.Not) and isinstance(fv.operand, ast.Name):
+                flag = fv.operand.id
+            elif isinstance(fv, ast.Name):
+                flag = fv.id
+                start, later = True, False
+            in_loop_true = [r for r in early if any(isinstance(a, (ast.For, ast.While)) for a in ancestors(r)) and
+                            isinstance(r.value, ast.Constant) and r.value.value is True]
+            if flag is not None and in_loop_true:
+                rep.bad("C18.4", site, "no name is declared available before every queried name was compared with every candidate",
+                        f"`return True` at line {in_loop_true[0].lineno} inside the search loop: the names and candidates not yet visited are "
+                        "never compared, so a conflicting name among them is accepted", line=in_loop_true[0].lineno)
+                flag = None
+                extra_unk = False
+            elif flag is not None:
+                extra_unk = (f"{len(early)} early return(s) beside the final verdict ({', '.join('`return ' + ast.unparse(r.value)[:30] + '`' for r in early)}): "
+                             "a fast path or early exit whose agreement with the full search is not decided")
+    if extra_unk:
+        rep.unk("C18.4", site, "the verdict is `not <conflict flag>` (or an availability flag) and there is no early return", extra_unk)
+    elif extra_unk is None:
+        rep.check(flag is not None, "C18.4", site, "the verdict is `not <conflict flag>` (or an availability flag) and there is no early return",
+                  f"returns: {[ast.unparse(r.value) for r in rets]}")
     if flag:
         stores = [n for n in own_walk(fi.node) if isinstance(n, (ast.Assign, ast.AugAssign)) and
                   any(isinstance(t, ast.Name) and t.id == flag for t in (n.targets if isinstance(n, ast.Assign) else [n.target]))]
